@@ -2,10 +2,12 @@ package main
 
 import (
 	"os"
+	"runtime/debug"
 
 	"verif/engine/sx"
 )
 
 func main() {
+	debug.SetGCPercent(400)
 	os.Exit(sx.Main(os.Args[1:]))
 }
